@@ -429,9 +429,10 @@ def check_equity_sample_times(repo, rep, tier="quick"):
                "_skip_simulator": [(2880, "5m"), (4330, "5m"), (4330, "45m"), (2880, "12h"), (2880, "1D"), (4320, "1D"), (5770, "1D"), (12960, "3D"), (20170, "1W")]}
     for sim, cfgs in configs.items():
         for length, tf in cfgs:
-            step = 1 if sim == "_step_simulator" else minutes_of(tf)
             ses = MS.run(repo, sim, symbols=("AAA-USDT",), minutes=length, timeframe=tf, light=True)
             evs = ses.events
+            # the length of a step is what the simulator really hands to the matcher at once (not assumed from the timeframe)
+            step = max([e[3] for e in evs if e[0] == "match"] or [1])
             raised = [e for e in evs if e[0] == "raise"]
             if raised:
                 rep.violation(rid, f"{sim}|raises", f"{sim} with a session of {length} minutes and a step of {step} raises {raised[0][1]}")
